@@ -173,19 +173,22 @@ def describe_kernel(case, obs):
 def gen_panel(rng, tier):
     from . import c20
 
-    want = 40 if tier == "quick" else 600
+    want = 45 if tier == "quick" else 600
+    t = -1
     for case in c20.gen(rng, "thorough"):
         if case["violation"] not in (None, "tooFewSamples"):
             continue
+        t += 1
         n = int(case["nsamp"])
         case["no_repl"], case["only_bp"] = True, False
         # boundary panels: exactly n-1, n, n+1 reference samples per population
-        # (every population, or a single one at any position of the model header while the others have plenty)
-        k = rng.choice([n - 1, n, n + 1])
+        # (every population, or a single one at any position of the model header while the others have plenty);
+        # the margin and the position of the short population go round in turn, so that every run holds every combination
+        k = [n - 1, n, n + 1][t % 3]
         if k < 1:
             k = n
-        if rng.random() < 0.6:
-            sp = rng.choice(case["pops"])
+        if t % 5 < 3:
+            sp = case["pops"][(t // 3) % len(case["pops"])]
             case["per_pop"] = {q: (k if q == sp else n + 2) for q in case["pops"]}
             if rng.random() < 0.5:
                 # a pulse model: that population contributes nothing to the first generation and enters later (or never)
